@@ -114,8 +114,8 @@ def run(tier, seed):
     v.cov["states"], v.cov["transitions"] = states, trans
     # behaviours to execute
     one = behaviours("gen/Gen_Rpc_1.cfg", "gen_1")
-    two = behaviours("gen/Gen_Rpc_2.cfg", "gen_2", simulate=f"num={1500 if thorough else 200}", seed=seed)
-    sample_one = one if thorough else rng.sample(one, min(len(one), 80))
+    two = behaviours("gen/Gen_Rpc_2.cfg", "gen_2", simulate=f"num={1500 if thorough else 120}", seed=seed)
+    sample_one = one if thorough else rng.sample(one, min(len(one), 50))
     # make sure the fault paths are in (send failure, no connection, timeout with a late reply)
     must = [b for b in one if b["conn"] != "up"][: (400 if thorough else 40)]
     stale = [b for b in one if any(a[0] == "reply" and 50 < a[1] < 99 for a in b["hist"]) and b["conn"] == "up"]
